@@ -35,11 +35,14 @@ META = dict(
                  "library's own value, relative padding 1e-12) are not judged; the run is still judged "
                  "on all other clauses",
                  "ERROR is only required to be absent for HPD input; non-HPD input is run through the "
-                 "same oracles but may return ERROR"],
+                 "same oracles but may return ERROR",
+                 "monotonic energy decrease and absence of ERROR are only judged while the dense residual is "
+                 ">= 1e-8 (|A| max|x| + |b|): once CG has converged numerically (e.g. start at the exact "
+                 "solution with an unattainable tolerance) its steps are rounding noise"],
     need=["energy_consistency_checks", "controller_decisions", "converged_claims_verified",
           "inversion_enabler_solutions", "nstep_termination_checks", "cg_runs"],
-    quick=dict(cases=1200, workers=6, budget_s=75),
-    thorough=dict(cases=40000, workers=16, budget_s=600),
+    quick=dict(cases=800, workers=6, budget_s=80),
+    thorough=dict(cases=30000, workers=16, budget_s=700),
     design_ref="DESIGN.md §5 C14",
     level_text=("generated HPD systems / controller configurations, every controller event of the real "
                 "ConjugateGradient re-evaluated densely; exploration, not exhaustive"),
@@ -281,7 +284,12 @@ def judge_return(J, events, energy, status, hpd, ic):
     if status == ERR:
         if hpd:
             last = events[-1]["status"] if events else None
-            if last != ERR:
+            S = J.normA * J.xmax + J.normb + 1e-300
+            if J.res and min(J.res) < 1e-8 * S:
+                # numerically converged already: the iteration runs on rounding noise (e.g. the search
+                # direction cancels to 0 exactly) — not judged, like monotonicity
+                ck.hit("cg_error_at_noise_floor")
+            elif last != ERR:
                 J.viol(f"cg-error-on-hpd:{J.site}",
                        "ConjugateGradient returned ERROR for an HPD system with HPD preconditioner",
                        events=len(events))
